@@ -95,6 +95,8 @@ type Fact struct {
 
 type SpecFile struct {
 	Contracts map[string]*Contract
+	Bodies    map[string]*Contract // "body func": body-only contracts of assumed functions
+	BodyOrder []string
 	Order     []string
 	Funcs     map[string]*SpecFunc
 	FuncOrder []string
@@ -183,6 +185,23 @@ func parseSpecFile(path string) (*SpecFile, error) {
 			}
 			sf.Funcs[sp.Name] = sp
 			sf.FuncOrder = append(sf.FuncOrder, sp.Name)
+		case strings.HasPrefix(t, "body func "):
+			// body func ...: a second contract of a function whose callers keep using
+			// its ASSUMED contract (a reflection / tag accessor of the trusted base):
+			// only the body is verified against these clauses, nothing is exported
+			c, err := parseHeader(strings.TrimPrefix(t, "body "), l.no)
+			if err != nil {
+				return nil, fmt.Errorf("line %d: %v", l.no, err)
+			}
+			if sf.Bodies == nil {
+				sf.Bodies = map[string]*Contract{}
+			}
+			if _, dup := sf.Bodies[c.Key]; dup {
+				return nil, fmt.Errorf("line %d: duplicate body contract for %s", l.no, c.Key)
+			}
+			sf.Bodies[c.Key] = c
+			sf.BodyOrder = append(sf.BodyOrder, c.Key)
+			cur = c
 		case strings.HasPrefix(t, "func ") || strings.HasPrefix(t, "assumed func "):
 			assumed := strings.HasPrefix(t, "assumed ")
 			hdr := strings.TrimPrefix(t, "assumed ")
